@@ -72,7 +72,8 @@ def read_client_conf():
         'tpm': Platform().default_tpm_scheme()
     }
     if path:
-        parser = ConfigParser()
+        # No interpolation: a '%' in a value (e.g. in a path) is just a character
+        parser = ConfigParser(interpolation=None)
         text = '[DEFAULT]\n'
         with open(path) as f:
             text += f.read()
